@@ -57,6 +57,13 @@ CHECKS = {
             "PPO collector) are validated against the adapted environment's specification.",
             "built-in environments under wrappers are covered by C01/C02 traces; Rescale over unbounded boxes is out of scope.",
             "DESIGN.md section 4 C13"),
+    "C10": ("TLA+ Schedule spec: TLC exhaustive over hyper-parameters and iteration histories + trace validation of real DQN/SAC/learn runs",
+            "TLC checks Schedule.tla (iteration budget, post-increment DQN target copy, pre-increment SAC actor/temperature gate, one "
+            "Polyak step per iteration) against the declarative sentences for all settings within bounds; iteration histories of real "
+            "DQN and SAC runs (interned parameter digests, ring positions), an exact Polyak instance and learn() record sequences are "
+            "validated against it.",
+            "parameter identity by bit-identical digests; Polyak on real runs up to 1e-6 plus an exact integer instance.",
+            "DESIGN.md section 4 C10"),
 }
 
 PENDING_REASON = "check not built yet in this round (planned: see DESIGN.md section 4); not claimed until its machinery exists"
